@@ -15,7 +15,7 @@ def st(flavour, engine, cases, ops=60, shards=8, timeout=900, **extra):
 
 
 def world(qcases=4000, tcases=240000, miri=True, asan=True):
-    quick = [st("dbg", "world", qcases, 80, 8)]
+    quick = [st("dbg", "world", qcases, 80, 8), st("rel", "world", qcases, 80, 8)]
     thorough = [
         st("dbg", "world", tcases, 80, 16, 3000),
         st("rel", "world", tcases, 120, 16, 3000),
